@@ -52,6 +52,17 @@ def gen_lexicon(rng, k):
             entries.append({'id': f'{lexid}-w{i}', 'meta': None, 'lemma': {'writtenForm': lemma, 'partOfSpeech': pos},
                             'forms': [dict({'writtenForm': shared}, **({'script': script} if script else {}))],
                             'senses': [{'id': f'{lexid}-w{i}-s0', 'synset': f'{lexid}-ss0', 'meta': None}]})
+    if rng.random() < 0.6:
+        # a form that is a lemma of one word and an additional form of another word of the same part of speech
+        pos = rng.choice(['n', 'v', 'a', 's', 'r'])
+        a, b = rng.sample(stems, 2)
+        for lemma, forms in ((a, []), (b, [a])):
+            i = len(entries)
+            e = {'id': f'{lexid}-w{i}', 'meta': None, 'lemma': {'writtenForm': lemma, 'partOfSpeech': pos},
+                 'senses': [{'id': f'{lexid}-w{i}-s0', 'synset': f'{lexid}-ss0', 'meta': None}]}
+            if forms:
+                e['forms'] = [{'writtenForm': f} for f in forms]
+            entries.append(e)
     lx = {'id': lexid, 'version': '1', 'label': 'morphy test', 'language': 'en', 'email': 'a@b.c', 'license': 'L',
           'meta': None, 'entries': entries,
           'synsets': [{'id': f'{lexid}-ss0', 'ili': '', 'partOfSpeech': 'n', 'meta': None}]}
@@ -228,11 +239,6 @@ def process(ctx, cases):
 def run(ctx):
     n = 12 if ctx.tier == 'quick' else 120
     cases = []
-    # witnesses of past failures first
-    import core
-    for f in sorted((core.CORPUS / PID).glob('*.json')):
-        sc = json.loads(f.read_text())['scenario']
-        cases.append((sc['lexicon'], [sc['query']]))
     for k in range(n):
         lx = gen_lexicon(ctx.rng, k)
         cases.append((lx, queries(ctx.rng, lx, 30 if ctx.tier == 'quick' else 60)))
